@@ -49,7 +49,7 @@ pub fn key_name(k: Key) -> String {
     }
 }
 
-pub const HISTORIES: [&[&str]; 2] = [&[], &["ab c", "é;x"]];
+pub const HISTORIES: [&[&str]; 3] = [&[], &["ab c", "é;x"], &["ab", " "]];
 
 #[derive(Debug, Clone, PartialEq, Eq)]
 pub struct View {
@@ -90,9 +90,18 @@ pub fn variant() -> bool {
     })
 }
 
+/// Measured once: does Enter on a blank focused history entry submit it? (see refmodel::editor;
+/// a panic there is reported by the search itself)
+pub fn variant_blank() -> bool {
+    use std::sync::OnceLock;
+    static V: OnceLock<bool> = OnceLock::new();
+    *V.get_or_init(|| matches!(real(2, &[Key::Up, Key::Enter]), Ok(v) if !v.commands.is_empty()))
+}
+
 pub fn reference(hist: usize, keys: &[Key]) -> View {
     let mut ed = Editor::new(HISTORIES[hist].iter().map(|s| s.to_string()).collect());
     ed.w_stops_at_trailing_space = variant();
+    ed.blank_history_submits = variant_blank();
     let mut commands = Vec::new();
     for k in keys {
         if let Some(line) = ed.key(*k) {
@@ -259,7 +268,7 @@ pub fn run(ctx: &Ctx) -> i32 {
     let raw_transitions = stats_raw.transitions;
     acc.merge(acc_raw);
 
-    let rule = "BFS over key histories (14-key alphabet incl. 2-byte and 4-byte characters, every editing key, Enter) from 2 initial histories; each transition replays the history on a fresh real Terminal through its read() and on the reference editor; distinct_nontrivial counts transitions whose real and reference views agreed (each is a distinct history)";
+    let rule = "BFS over key histories (14-key alphabet incl. 2-byte and 4-byte characters, every editing key, Enter) from 3 initial histories (empty, two entries incl. multi-byte and ';', one with a blank entry as an externally written history file can contain); each transition replays the history on a fresh real Terminal through its read() and on the reference editor; distinct_nontrivial counts transitions whose real and reference views agreed (each is a distinct history)";
     finish(
         ctx,
         acc,
@@ -268,7 +277,7 @@ pub fn run(ctx: &Ctx) -> i32 {
         !stats.capped && !stats_raw.capped,
         &["multibyte-left-of-cursor", "line-submitted", "history-focused"],
         &["fresh Terminal per history equals a fresh process (no TTY, no history file)", "reference editor semantics follow the doc comments of terminal.rs (history focus, Vim w/b word motions)"],
-        json!({"measured_variant_w_stops_at_trailing_space": variant(), "dedup_depth": dedup_depth, "raw_depth": raw_depth, "dedup": {"states": stats.states, "transitions": stats.transitions, "per_level": stats.per_level, "capped": stats.capped}, "raw": {"transitions": raw_transitions, "per_level": stats_raw.per_level}}),
+        json!({"measured_variant_w_stops_at_trailing_space": variant(), "measured_variant_blank_history_submits": variant_blank(), "dedup_depth": dedup_depth, "raw_depth": raw_depth, "dedup": {"states": stats.states, "transitions": stats.transitions, "per_level": stats.per_level, "capped": stats.capped}, "raw": {"transitions": raw_transitions, "per_level": stats_raw.per_level}}),
     )
 }
 
